@@ -234,6 +234,10 @@ class Program:
 
     def _add_module(self, rel: str, modname: str, tree: ast.Module, src: str):
         tree = _Canon().visit(tree)
+        if rel.startswith('src/') and os.environ.get('AEIC_VERIF_NO_ALPHA') != '1':
+            from . import alpha
+            tree, nren = alpha.normalise(tree, rel, hashlib.sha256(src.encode()).hexdigest())
+            self.alpha_renamed = getattr(self, 'alpha_renamed', 0) + nren
         m = ModuleInfo(
             relpath=rel,
             modname=modname,
@@ -245,7 +249,9 @@ class Program:
         self.by_modname[modname] = m
         for n in ast.walk(tree):
             for ch in ast.iter_child_nodes(n):
-                ch._parent = n  # type: ignore[attr-defined]
+                # Load()/Store()/Add()... are interpreter-wide singletons: never hang a parent on them
+                if not isinstance(ch, (ast.expr_context, ast.operator, ast.unaryop, ast.cmpop, ast.boolop)):
+                    ch._parent = n  # type: ignore[attr-defined]
         self._index_module(m)
 
     def _index_module(self, m: ModuleInfo):
